@@ -183,6 +183,18 @@ func (c *Conn) WaitReads(n int) {
 	c.mu.Unlock()
 }
 
+// WaitReadsTimeout is WaitReads with a wall-clock limit; false means the limit expired.
+func (c *Conn) WaitReadsTimeout(n int, d time.Duration) bool {
+	done := make(chan struct{})
+	go func() { c.WaitReads(n); close(done) }()
+	select {
+	case <-done:
+		return true
+	case <-time.After(d):
+		return false
+	}
+}
+
 func (c *Conn) isClosedLocked() bool {
 	select {
 	case <-c.closed:
